@@ -106,6 +106,10 @@ type Sim struct {
 	// fault: e.g. the Raft state machine lagging several entries behind).
 	StallKind     string
 	StallPermille int
+	// TickPerStep advances the simulated clock by this much before every
+	// scheduling decision (real clocks never stand still between two requests;
+	// code comparing timestamps with Before/After needs that).
+	TickPerStep time.Duration
 
 	Faults map[string]int // fired, by kind
 	Probes map[string]int
@@ -424,6 +428,9 @@ func (s *Sim) SetFaults(permille, max int, kinds ...Fault) {
 // Step releases one runnable parked operation chosen from the tape. It
 // returns false when nothing is runnable.
 func (s *Sim) Step() bool {
+	if s.TickPerStep > 0 {
+		time.Sleep(s.TickPerStep)
+	}
 	synctest.Wait()
 	s.stepCh.Add(1)
 	P := s.runnable()
